@@ -791,8 +791,14 @@ impl<'a> crate::ranger::Store<SignedEntry> for StoreInstance<'a> {
 
             // insert into latest table
             let key = (&e.id().namespace().to_bytes(), &e.id().author().to_bytes());
-            let value = (e.timestamp(), e.id().key());
-            tables.latest_per_author.insert(key, value)?;
+            let is_latest = match tables.latest_per_author.get(key)? {
+                Some(existing) => e.timestamp() >= existing.value().0,
+                None => true,
+            };
+            if is_latest {
+                let value = (e.timestamp(), e.id().key());
+                tables.latest_per_author.insert(key, value)?;
+            }
             Ok(())
         })
     }
